@@ -326,26 +326,74 @@ func checkFastTailsIdentical(c *Check, p *Prog) {
 	ra, fina, pa := tail(sa)
 	rb, finb, pb := tail(sb)
 	ok := len(ra) == 2 && len(rb) == 2 && fina != nil && finb != nil
+	// the integer statistic each side converts to float64 (S itself, or 2*ones-n, ...): the argument of the
+	// int->float conversion that depends on the loop's final counter
+	statOf := func(rets []*Term, fin *Symbol) *Term {
+		var st *Term
+		for _, r := range rets {
+			Walk(r, map[*Term]bool{}, func(x *Term) {
+				if x.K == KOp && x.Op == "i2f" && DependsOn(x.Args[0], func(s *Symbol) bool { return s == fin }) {
+					if st == nil || st == x.Args[0] {
+						st = x.Args[0]
+					} else {
+						ok = false
+					}
+				}
+			})
+		}
+		return st
+	}
+	var xA, xB *Term
 	if ok {
-		// substitute: S_bytes -> S_bits, 8*len(data) -> len(bits)
+		xA, xB = statOf(ra, fina), statOf(rb, finb)
+		ok = xA != nil && xB != nil
+	}
+	if ok {
+		// 8*len(data) plays the role of len(bits); the counters are set so that both statistics take the same value
 		nA := S.MulC(S.Op("len", TInt, pa), bigInt(8))
 		nB := S.Op("len", TInt, pb)
-		for i := 0; i < 2 && ok; i++ {
-			e := NewEnv(7)
-			for k := 0; k < 16 && ok; k++ {
+		e := NewEnv(7)
+		done := 0
+		for k := 0; k < 64 && ok; k++ {
+			n := int64(8 * (1 + h64("n", k)%5000))
+			e.Dom["len:"+e.canonOf(pa.Sym)] = Domain{Lo: n / 8, Hi: n / 8}
+			e.Dom["len:"+e.canonOf(pb.Sym)] = Domain{Lo: n, Hi: n}
+			at := func(fin *Symbol, v int64, t *Term) Val {
 				e.Reset(h64("tail", k))
-				e.Canon[fina], e.Canon[finb] = "S", "S"
-				n := int64(8 * (1 + h64("n", k)%5000))
-				e.Dom["len:"+e.canonOf(pa.Sym)] = Domain{Lo: n / 8, Hi: n / 8}
-				e.Dom["len:"+e.canonOf(pb.Sym)] = Domain{Lo: n, Hi: n}
-				va, vb := e.Eval(ra[i]), e.Eval(rb[i])
-				if e.Eval(nA).I != e.Eval(nB).I || va.F != vb.F {
+				e.Over[fin] = Val{K: TInt, I: v}
+				return e.Eval(t)
+			}
+			// both statistics are affine in their counter: x = p*fin + q
+			qA, qB := at(fina, 0, xA).I, at(finb, 0, xB).I
+			pA, pB := at(fina, 1, xA).I-qA, at(finb, 1, xB).I-qB
+			if pA == 0 || pB == 0 || at(fina, 5, xA).I != 5*pA+qA || at(finb, 5, xB).I != 5*pB+qB {
+				ok = false
+				break
+			}
+			s := int64(h64("s", k)%uint64(2*n+1)) - n
+			if (s-qA)%pA != 0 || (s-qB)%pB != 0 {
+				s++
+			}
+			if (s-qA)%pA != 0 || (s-qB)%pB != 0 {
+				continue
+			}
+			fa, fb := (s-qA)/pA, (s-qB)/pB
+			if at(fina, fa, nA).I != at(finb, fb, nB).I {
+				ok = false
+			}
+			for i := 0; i < 2 && ok; i++ {
+				va, vb := at(fina, fa, ra[i]), at(finb, fb, rb[i])
+				if va.F != vb.F {
 					ok = false
 				}
 			}
+			done++
+		}
+		if done < 16 {
+			ok = false
 		}
 	}
-	c.Expect(ok, "R-FASTPATH", "monobit-tail", p.Pos(fa.Pos()), "the byte and bit forms map (S, n) to (P, Q) through the same float64 expression (bit-identical at 16 sampled (S,n))", "the byte-form tail differs from the bit-form tail in floating point")
+	c.Expect(ok, "R-FASTPATH", "monobit-tail", p.Pos(fa.Pos()), "the byte and bit forms map (S, n) to (P, Q) through the same float64 expression (bit-identical at >=16 sampled (S,n), whatever counter each loop keeps)", "the byte-form tail differs from the bit-form tail in floating point")
 }
 
 func checkRound(c *Check, p *Prog, name string, n int64, sliced bool) {
